@@ -31,6 +31,7 @@ func runHistory(k *mon.Case) {
 	}
 	defer s.Destroy()
 	s.CheckUtxo = true
+	s.ProbeRand = r.Fork()
 	g.ClockNow = s.N.Clock.Now()
 	k.Desc(map[string]any{"family": fam, "cache": cache})
 	// a base chain long enough for coinbases to mature, then a forked region with dense spending
